@@ -637,11 +637,10 @@ class Recfile(object):
             elif num > self.nrows:
                 num = self.nrows
         else:
-            # single element
+            # single element; out of range values are caught by
+            # the caller
             if num < 0:
                 num = self.nrows + num
-            elif num > (self.nrows - 1):
-                num = self.nrows - 1
 
         return num
 
@@ -661,6 +660,9 @@ class Recfile(object):
         # should we do this sort, or assume sorted?
 
         rows2read = numpy.unique(rows2read)
+
+        if rows2read.size == 0:
+            return rows2read
 
         rmin = rows2read[0]
         rmax = rows2read[-1]
